@@ -92,33 +92,7 @@ func runC05(c *eng.Ctx) {
 	// The archive object saved is the one loaded.
 	c.Check("R1", "same-archive-object", save.Pos(), eng.Render(save.Common().Args[1]) == eng.Render(load.Call.Args[1]), "the archive object saved is the one loaded and updated", eng.Render(save.Common().Args[1]))
 
-	// R2.
-	lst := eng.Deref(apply.Call.Args[1])
-	okOrder := false
-	var detail string
-	if outer, ok := lst.(*ssa.Call); ok && eng.CalleeName(outer) == "builtin:append" {
-		if inner, ok := eng.Deref(outer.Call.Args[0]).(*ssa.Call); ok && eng.CalleeName(inner) == "builtin:append" {
-			base := eng.Deref(inner.Call.Args[0])
-			if ex, ok := base.(*ssa.Extract); ok && ex.Tuple == ssa.Value(rec) && ex.Index == 0 {
-				a, b := eng.Render(inner.Call.Args[1]), eng.Render(outer.Call.Args[1])
-				detail = a + " then " + b
-				okOrder = a != b
-			}
-		}
-	}
-	c.Check("R2", "apply-list", apply.Pos(), okOrder, "Apply receives Reconcile's ancestor changes followed by the two result-change lists", detail)
-	c.Check("R2", "apply-base", apply.Pos(), eng.Deref(apply.Call.Args[0]) == eng.Deref(rec.Call.Args[0]) || eng.Render(apply.Call.Args[0]) == eng.Render(rec.Call.Args[0]), "Apply starts from the ancestor that was reconciled")
-	ag := eng.Guards(apply)
-	lenOK := false
-	for _, a := range ag {
-		if b, ok := a.V.(*ssa.BinOp); ok && b.Op == token.GTR && a.Pos {
-			if cl, ok := b.X.(*ssa.Call); ok && eng.CalleeName(cl) == "builtin:len" && eng.Deref(cl.Call.Args[0]) == lst {
-				lenOK = true
-			}
-		}
-	}
-	c.Check("R2", "apply-when-any-change", apply.Pos(), lenOK, "the apply-and-save block runs whenever the combined change list is non-empty (ancestor-only plans included)")
-	c01FoldResults(c, "R2", syn)
+	c05ApplyList(c, "R2", syn, apply, rec)
 
 	// R3.
 	var firstUse ssa.Instruction
@@ -329,3 +303,33 @@ func newNilGuard(g []eng.Atom, pol bool) bool {
 }
 
 var _ = fmt.Sprintf
+
+// c05ApplyList decides what Apply is given and when (shared with C04).
+func c05ApplyList(c *eng.Ctx, rule string, syn *ssa.Function, apply, rec *ssa.Call) {
+	lst := eng.Deref(apply.Call.Args[1])
+	okOrder := false
+	var detail string
+	if outer, ok := lst.(*ssa.Call); ok && eng.CalleeName(outer) == "builtin:append" {
+		if inner, ok := eng.Deref(outer.Call.Args[0]).(*ssa.Call); ok && eng.CalleeName(inner) == "builtin:append" {
+			base := eng.Deref(inner.Call.Args[0])
+			if ex, ok := base.(*ssa.Extract); ok && ex.Tuple == ssa.Value(rec) && ex.Index == 0 {
+				a, b := eng.Render(inner.Call.Args[1]), eng.Render(outer.Call.Args[1])
+				detail = a + " then " + b
+				okOrder = a != b
+			}
+		}
+	}
+	c.Check(rule, "apply-list", apply.Pos(), okOrder, "Apply receives Reconcile's ancestor changes followed by the two result-change lists", detail)
+	c.Check(rule, "apply-base", apply.Pos(), eng.Deref(apply.Call.Args[0]) == eng.Deref(rec.Call.Args[0]) || eng.Render(apply.Call.Args[0]) == eng.Render(rec.Call.Args[0]), "Apply starts from the ancestor that was reconciled")
+	ag := eng.Guards(apply)
+	lenOK := false
+	for _, a := range ag {
+		if b, ok := a.V.(*ssa.BinOp); ok && b.Op == token.GTR && a.Pos {
+			if cl, ok := b.X.(*ssa.Call); ok && eng.CalleeName(cl) == "builtin:len" && eng.Deref(cl.Call.Args[0]) == lst {
+				lenOK = true
+			}
+		}
+	}
+	c.Check(rule, "apply-when-any-change", apply.Pos(), lenOK, "the apply-and-save block runs whenever the combined change list is non-empty (ancestor-only plans included)")
+	c01FoldResults(c, rule, syn)
+}
